@@ -298,6 +298,41 @@ func Gen(seed uint64, focus string) *Scenario {
 			sc.PauseMs[i] = r.Pick(0, 0, 1)
 		}
 	}
+	if sc.Idempotent && !sc.Sync && r.Chance(1, 6) {
+		// mixed retry budgets in one batch: messages buffered behind a failing request go round the retry path, come
+		// back with their budget (partly) spent, are batched with fresh ones, and that batch fails again
+		sc.Partitions = 1
+		for i := range sc.Msgs {
+			sc.Msgs[i].Partition = 0
+		}
+		sc.RetryMax = r.Pick(1, 1, 2)
+		sc.LatencyMs = r.Pick(10, 15, 25)
+		sc.FlushMsgs, sc.FlushBytes, sc.FlushFreq, sc.MaxMsgs = 0, 0, 0, 0
+		sc.MaxMsgByte = 1000000
+		sc.GrowBy = 0
+		code := retriable[r.Intn(len(retriable))]
+		sc.Faults = map[int]sarama.VerifSimFault{
+			1: {Kind: "err", Code: code, OnlyPartition: -1},
+			3: {Kind: "err", Code: code, OnlyPartition: -1},
+		}
+		if r.Chance(1, 3) {
+			sc.Faults[r.Pick(2, 4, 5)] = sarama.VerifSimFault{Kind: "err", Code: code, OnlyPartition: -1}
+		}
+		sc.MetaFailAt = map[int]bool{}
+		sc.LeaderlessAtStart = -1
+		sc.CloseAfter = -1
+		sc.Bursts, sc.PauseMs = nil, nil
+		left := len(sc.Msgs)
+		for left > 0 {
+			b := r.Range(1, 3)
+			if b > left {
+				b = left
+			}
+			sc.Bursts = append(sc.Bursts, b)
+			sc.PauseMs = append(sc.PauseMs, r.Pick(2, 5, 5, 12, 30))
+			left -= b
+		}
+	}
 	return sc
 }
 
